@@ -55,8 +55,15 @@ func Run(rc *core.RunCtx) {
 	v := &probereg.Core[t.Choose(len(probereg.Core), "variant")]
 	plan := &refexec.Plan{Seed: uint64(t.Choose(1<<16, "planseed")), MaxList: 2, NullPM: []int{0, 100}[t.Choose(2, "nullpm")], ErrPM: []int{0, 100}[t.Choose(2, "errpm")]}
 	u := uni.New(w, v, plan)
-	v.SetBlobHook(nil)
+	v.SetBlobHook(execsim.BlobHook)
 	sse := t.Choose(2, "transport") == 0
+	// one run in eight: the custom scalar of me.blob panics while the payload is serialised, i.e.
+	// the panic escapes the response function into the transport
+	marshalPanic := t.Bool(1, 8, "marshal-panic")
+	if marshalPanic {
+		plan.NullPM, plan.ErrPM = 0, 0
+		plan.Faults = map[string]refexec.Kind{"me.blob": refexec.KMarshalPanic}
+	}
 
 	var src *source
 	var smu sync.Mutex
@@ -93,6 +100,10 @@ func Run(rc *core.RunCtx) {
 		}
 	}
 
+	if marshalPanic {
+		op = ops.Op{Query: `{ me { id blob } hello }`}
+		subscription, nEmit = false, 0
+	}
 	var interval time.Duration
 	srv := handler.New(u.ES)
 	if sse {
@@ -318,7 +329,12 @@ func Run(rc *core.RunCtx) {
 	desc := func() string {
 		return fmt.Sprintf("transport=%s interval=%s op=%q disconnected=%v recorded=%d\nbytes: %q\nrecorded: %q", map[bool]string{true: "sse", false: "multipart/mixed"}[sse], interval, op.Query, disconnected, len(rec), string(out), rec)
 	}
-	framing := rc.Property != "C05" // C05 only asks that nothing is left running
+	// C05 only asks that nothing is left running; after a serialisation panic the stream is not
+	// a complete response and only the end-of-life checks apply
+	framing := rc.Property != "C05" && !marshalPanic
+	if marshalPanic {
+		w.Count("serialisation_panic_runs")
+	}
 	checkFraming := func() bool {
 		if ov := wr.Overlaps(); len(ov) > 0 {
 			rc.Fail("concurrent-write", map[bool]string{true: "sse", false: "multipart"}[sse], "%s\n%s", ov[0], desc())
